@@ -50,7 +50,6 @@ func init() {
 			panic(goPanic{v: Iface{t: types.Typ[types.String], v: Str{s: "fatal error: sync: unlock of unlocked mutex"}}, where: w.where(fr)})
 		}
 		w.storeLeaf(st, w.tt.BV(32, 0))
-		w.yield(t, "Mutex.Unlock")
 		return nil
 	})
 
@@ -92,7 +91,6 @@ func init() {
 			panic(goPanic{v: Iface{t: types.Typ[types.String], v: Str{s: "fatal error: sync: RUnlock of unlocked RWMutex"}}, where: w.where(fr)})
 		}
 		w.storeLeaf(rd, w.tt.BV(32, uint64(w.i32(*rd)-1)))
-		w.yield(t, "RWMutex.RUnlock")
 		return nil
 	})
 	reg("(*sync.RWMutex).Lock", func(w *World, t *Thread, fr *frame, fn *ssa.Function, args []Value) Value {
@@ -127,7 +125,6 @@ func init() {
 			panic(goPanic{v: Iface{t: types.Typ[types.String], v: Str{s: "fatal error: sync: Unlock of unlocked RWMutex"}}, where: w.where(fr)})
 		}
 		w.storeLeaf(ws, w.tt.BV(32, 0))
-		w.yield(t, "RWMutex.Unlock")
 		return nil
 	})
 
@@ -143,9 +140,6 @@ func init() {
 			panic(goPanic{v: Iface{t: types.Typ[types.String], v: Str{s: "sync: negative WaitGroup counter"}}, where: w.where(fr)})
 		}
 		w.storeLeaf(c, w.tt.BV(64, uint64(cur)))
-		if cur == 0 {
-			w.yield(t, "WaitGroup.Done")
-		}
 		return nil
 	})
 	reg("(*sync.WaitGroup).Wait", func(w *World, t *Thread, fr *frame, fn *ssa.Function, args []Value) Value {
